@@ -2,7 +2,7 @@
 import copy
 
 from ..rng import Rng
-from .. import gen, world
+from .. import gen, world, tlsref as T
 from ..harness import Outcome
 from .base import Prop, run_export, failure_class, failure_detail, Flows, describe_conn
 
@@ -42,7 +42,8 @@ class C13(Prop):
             "ClientHello / ServerHello records appear verbatim as packets of their own; QUIC: every stream-data piece of the "
             "run without -a occurs in the same order and direction inside the -a datagrams; one evaluation = one pair; "
             "non-trivial = the run without -a exported data and -a changed the output; distinct = spec digests")
-    reach = ["tls", "quic", "a_added_packets", "hello_spans_packets", "multi_conn", "alert_followed_by_data"]
+    reach = ["tls", "quic", "a_added_packets", "hello_spans_packets", "multi_conn", "alert_followed_by_data",
+             "encrypted_hello_request_mid_connection"]
 
     def plan(self, tier):
         p = super().plan(tier)
@@ -99,6 +100,8 @@ class C13(Prop):
                 out.count("reach:tls")
                 if conn.get("alert_mid") is not None:
                     out.count("reach:alert_followed_by_data")
+                if conn.get("hello_req") and conn["ver"] != T.TLS13:
+                    out.count("reach:encrypted_hello_request_mid_connection")
                 seq0 = self.tls_seq(f0, c["id"])
                 seq1 = self.tls_seq(f1, c["id"])
                 if seq0 and seq0 != seq1:
